@@ -30,10 +30,10 @@ theorem writeObj_stream_eq (tr : Dict) (c : Bytes) :
   simp [writeObj]
 
 /-- `indirect_object` + `stream` read the written cross-reference stream object back -/
-theorem pIndirect_xrefStream (N : Nat) (tr : Dict) (content tail : Bytes) (hN : N ≤ U32_MAX)
+theorem pIndirect_xrefStream (len : ObjId → Option Int) (base : Nat) (N : Nat) (tr : Dict) (content tail : Bytes) (hN : N ≤ U32_MAX)
     (hL : tr.get LENGTH = some (.int content.length))
     (hD : DictReadsBack tr (STREAM_KW ++ (content ++ (ENDSTREAM_KW ++ 32 :: (ENDOBJ_TAIL ++ tail))))) :
-    pIndirect (fun _ => none) none 0 (writeIndirect N 0 (.stream tr content) ++ tail)
+    pIndirect len none base (writeIndirect N 0 (.stream tr content) ++ tail)
       = some ((N, 0), .plain (.stream (tr.set LENGTH (.int content.length)) content)) := by
   obtain ⟨a, as, hda, ha⟩ := natDigits_head N
   obtain ⟨ha1, ha2, _⟩ := digit_not_ws a ha
@@ -61,7 +61,7 @@ theorem pIndirect_xrefStream (N : Nat) (tr : Dict) (content tail : Bytes) (hN : 
   have s4 : space (10 :: (writeObj (.dict tr) ++ restS)) = writeObj (.dict tr) ++ restS := by
     rw [hw]; exact space_ws_stop 10 60 _ (by decide) (by decide) (by decide)
   -- the stream
-  have hst : pStream (fun _ => none) (writeObj (.dict tr) ++ restS)
+  have hst : pStream len (writeObj (.dict tr) ++ restS)
       = .ok (.plain (.stream (tr.set LENGTH (.int content.length)) content)) (32 :: (ENDOBJ_TAIL ++ tail)) := by
     unfold DictReadsBack at hD
     have s5 : space restS = restS := by
@@ -97,7 +97,7 @@ theorem xrefAndTrailer_xrefStream (N : Nat) (tr : Dict) (content tail : Bytes) (
     simp [writeIndirect, hda, pXref.XREF_WORD, tag, ha3']
   unfold xrefAndTrailer
   rw [hx]
-  simp only [xrefAndTrailer.xrefStreamAlt, pIndirect_xrefStream N tr content tail hN hL hD]
+  simp only [xrefAndTrailer.xrefStreamAlt, pIndirect_xrefStream (fun _ => none) 0 N tr content tail hN hL hD]
 
 /-! ### the dictionary `create_xref_steam` builds -/
 
@@ -146,6 +146,11 @@ theorem xmapStream_ok (pre : Bytes) (d : SDoc) (hg : GensOk d) : XrefMapOk (xmap
   · rw [XrefMap.get_insert_other _ _ _ _ hn] at hget
     exact xmapOf_ok pre d hg n off g hget
 
+/-- the trailer `decode_xref_stream` returns for a cross-reference-stream save -/
+def streamTrailerRead (pre : Bytes) (d : SDoc) : Dict :=
+  ((((streamTrailer pre d).set LENGTH
+    (.int (xrefStreamContent (streamSecs (xmapStream pre d) (d.maxId + 1))).length)).remove LENGTH).remove W_KEY).remove INDEX
+
 /-- **Loading a cross-reference-stream save reconstructs the writer's table (C01/C03).** For every
 document saved with a cross-reference stream (file < 4 GiB, `Size = max_id + 2 ≤ u32::MAX`, `u16`
 generations, distinct trailer keys — an `IndexMap`) whose stream dictionary reads back
@@ -159,10 +164,11 @@ theorem load_xref_of_save_stream (pre : Bytes) (d : SDoc) (out : Bytes) (d' : SD
     (hmax : d.maxId + 2 ≤ 4294967295) (hg : GensOk d) (hnd : d.trailer.keys.Nodup)
     (hD : DictReadsBack d'.trailer (STREAM_KW ++ (xrefStreamContent (streamSecs (xmapStream pre d) (d.maxId + 1))
       ++ (ENDSTREAM_KW ++ 32 :: (ENDOBJ_TAIL ++ (STARTXREF_KW ++ natDigits (bodyOf pre d).length ++ EOF_KW)))))) :
-    ∃ xs table tr', getXrefStart out = some xs ∧ xs ≤ out.length ∧
-      xrefAndTrailer (out.drop xs) = .ok (table, d.maxId + 2, tr') ∧
+    ∃ xs table, getXrefStart out = some xs ∧ xs ≤ out.length ∧
+      xrefAndTrailer (out.drop xs) = .ok (table, d.maxId + 2, streamTrailerRead pre d) ∧
       (∀ n, table.get n = if 1 ≤ n ∧ n ≤ d.maxId + 1 then normalOf (xmapStream pre d) n else none) ∧
-      (∀ n off g, table.get n = some (.normal off g) → HeaderAt out off n g) := by
+      (∀ n off g, table.get n = some (.normal off g) → HeaderAt out off n g) ∧
+      (table.map (·.1)).Nodup := by
   obtain ⟨hout, htr⟩ := saveFrom_stream_eq pre d out d' hk h
   have hb := body_le_out pre d out d' h
   have hbl : (bodyOf pre d).length < 4294967296 := by omega
@@ -175,7 +181,7 @@ theorem load_xref_of_save_stream (pre : Bytes) (d : SDoc) (out : Bytes) (d' : SD
   rw [hc] at f5
   have e : out = bodyOf pre d ++ (writeIndirect (d.maxId + 1) 0 (.stream (streamTrailer pre d) content) ++ tail) := by
     rw [hout, ← htail]; simp only [List.append_assoc]
-  obtain ⟨table, hdec, hget⟩ := xref_stream_rt (xmapStream pre d) (d.maxId + 1)
+  obtain ⟨table, hdec, hget, hnodup⟩ := xref_stream_rt (xmapStream pre d) (d.maxId + 1)
     ((streamTrailer pre d).set LENGTH (.int content.length)) ((d.maxId + 1 + 1 : Nat) : Int)
     (xmapStream_ok pre d hg) (by omega)
     ⟨d.maxId + 1, by omega, by omega, by simp [xmapStream, XrefMap.get_insert_same]⟩ f1 f2 f3 f4
@@ -183,13 +189,12 @@ theorem load_xref_of_save_stream (pre : Bytes) (d : SDoc) (out : Bytes) (d' : SD
   have hmod : ((((d.maxId + 1 + 1 : Nat) : Int)) % (U32 : Int)).toNat = d.maxId + 2 := by
     simp [U32]; omega
   refine ⟨(bodyOf pre d).length, table,
-    ((((streamTrailer pre d).set LENGTH (.int content.length)).remove LENGTH).remove W_KEY).remove INDEX,
-    startxref_found pre d out d' h hlen, hb, ?_, hget, ?_⟩
+    startxref_found pre d out d' h hlen, hb, ?_, hget, ?_, hnodup⟩
   · have hdrop : out.drop (bodyOf pre d).length
         = writeIndirect (d.maxId + 1) 0 (.stream (streamTrailer pre d) content) ++ tail := by
       rw [e, List.drop_left]
     rw [hdrop, xrefAndTrailer_xrefStream (d.maxId + 1) (streamTrailer pre d) content tail
-      (by simp [U32_MAX]; omega) f5 hD, hdec, hmod]
+      (by simp [U32_MAX]; omega) f5 hD, hdec, hmod, streamTrailerRead, hc]
   · intro n off g hn
     rw [hget n] at hn
     split at hn
